@@ -119,17 +119,18 @@ pub fn hex_string_check(s: &String, st: &mut Stats) -> Result<(), String> {
             }
             st.hit("hex:ok-digits");
         }
-        (Some(Some(_)), Err(e)) if all_hex => {
-            return Err(format!("hex_to_u64({:?}) rejected a digit string that fits 64 bits: {}", s, e));
-        }
-        (_, Ok(v)) => {
-            // accepted beyond the statement (e.g. leading '+'): the value must still be what the
-            // digits after an optional '+' say
-            let t = s.strip_prefix('+').unwrap_or(s);
-            match own_parse(t) {
-                Some(Some(want)) if want == *v => st.hit("hex:ok-lenient"),
-                _ => return Err(format!("hex_to_u64({:?}) = {:#x} but the string does not evaluate to that", s, v)),
+        (Some(Some(want)), Err(e)) if all_hex => {
+            // only the canonical spelling (what the formatter produces: lower case, no leading zeros) is
+            // promised to parse; a stricter parser may refuse upper case or padded digits
+            if *s == format!("{:x}", want) {
+                return Err(format!("hex_to_u64({:?}) rejected the canonical spelling of {:#x}: {}", s, want, e));
             }
+            st.hit("hex:err-noncanonical-digits(allowed)");
+        }
+        (_, Ok(_)) => {
+            // accepted beyond the statement (a sign, a prefix, blanks ...): the statement is silent on what
+            // such a string means, so nothing is asserted about the value
+            st.hit("hex:ok-beyond-the-statement(not asserted)");
         }
         (_, Err(_)) => st.hit("hex:err"),
     }
